@@ -287,6 +287,33 @@ def dup_noise(rng, d):
     return d
 
 
+def long_chain(rng, n=None):
+    """a very deep pipeline: n units in a row (recursion depth / quadratic passes show only here), optionally
+    with a dead-end spur or a defect far down the chain"""
+    n = n or rng.choice([60, 90, 130, 180])
+    cap = rng.choice(CAPS)
+    units = [{"name": f"s{i}", "width": 1 + (i % 3 == 0), "capabilities": [cap] + (["X9"] if i % 7 == 3 else []),
+              "readLock": i == 0, "writeLock": i == 1 % n} for i in range(n)]
+    dp = [[f"s{i}", f"s{i + 1}"] for i in range(n - 1)]
+    r = rng.random()
+    if r < 0.25:
+        units.append({"name": "spur", "width": 1, "capabilities": ["Q7"], "readLock": False, "writeLock": False})
+        dp.append([f"s{n // 2}", "spur"])
+    elif r < 0.4:
+        dp.append([f"s{n - 1}", f"s{n // 3}"])                       # a long cycle
+    elif r < 0.5:
+        units[n - 2]["width"] = 0
+    return {"units": units, "dataPath": dp}
+
+
+def plain_deep_chain(n, cap="ALU"):
+    """n units in a row, nothing to prune, locks in the first unit: the loaded processor is known in closed form
+    (used beyond the sizes the extracted model handles in reasonable time)"""
+    return {"units": [{"name": f"d{i}", "width": 1, "capabilities": [cap], "readLock": i == 0, "writeLock": i == 0}
+                      for i in range(n)],
+            "dataPath": [[f"d{i}", f"d{i + 1}"] for i in range(n - 1)]}
+
+
 def valid_desc(rng, nmax=6, **kw):
     """a description that the loader accepts with good probability"""
     d = dup_noise(rng, rand_desc(rng, nmax, **kw))
